@@ -508,7 +508,13 @@ impl<'a> Gen<'a> {
     }
 
     fn lambda(&mut self, ps: &[Ty], r: &Ty, depth: usize) -> Expr {
-        let params: Vec<(String, Ty)> = ps.iter().enumerate().map(|(i, t)| (format!("p{i}"), t.clone())).collect();
+        let mut params: Vec<(String, Ty)> = ps.iter().enumerate().map(|(i, t)| (format!("p{i}"), t.clone())).collect();
+        if !params.is_empty() && self.tape.chance(1, 6) {
+            // one parameter spelled like a name the implementation's helper closures use
+            self.label("parameter named like an internal helper name");
+            let k = self.tape.below(params.len());
+            params[k].0 = self.tape.pick(&INTERNAL_NAMES).to_string();
+        }
         let body = self.function_body(&params, r, depth.min(2), None);
         self.label("anonymous function");
         Expr::Lambda(params, r.clone(), body)
@@ -1108,6 +1114,15 @@ impl<'a> Gen<'a> {
                 // value of a conditional statement: a union when the branches differ
                 let (ta, tb) = (self.gen_ty(1), self.gen_ty(1));
                 let c = self.expr(&Ty::Bool, depth.saturating_sub(1));
+                if self.tape.chance(1, 5) {
+                    // both branches the same constant: the condition is still evaluated (for its effects)
+                    let t = self.gen_scalar_ty();
+                    let v = self.lit(&t);
+                    self.label("if as a value with equal constant branches");
+                    self.declare(&name, t);
+                    let branch = |v: &Expr| Box::new(Stmt::Block(vec![Stmt::Expr(v.clone())]));
+                    return Stmt::Let(name, Box::new(Stmt::If(c, branch(&v), Some(branch(&v)))));
+                }
                 let a = self.block(depth.saturating_sub(1), 1, Some(&ta));
                 let b = self.block(depth.saturating_sub(1), 1, Some(&tb));
                 self.label("if as a value");
@@ -1411,6 +1426,10 @@ impl<'a> Gen<'a> {
                     name.clone()
                 } else if self.tape.chance(self.p.scoping.min(6), 10) {
                     NAMES[self.tape.below(4)].to_string()
+                } else if self.tape.chance(1, 5) {
+                    // a parameter (a run-time value, never folded away) spelled like a helper name
+                    self.label("parameter named like an internal helper name");
+                    self.tape.pick(&INTERNAL_NAMES).to_string()
                 } else {
                     format!("q{i}")
                 };
@@ -1812,10 +1831,39 @@ impl<'a> Gen<'a> {
                 Stmt::Expr(Expr::Assign(op, Box::new(Expr::Var(c.name)), Box::new(value)))
             }
             6 => {
-                // expression statement with an effect
-                let t = self.gen_scalar_ty();
-                let e = self.expr(&t, depth);
-                Stmt::Expr(e)
+                // expression statement with an effect: its value is discarded, its operands are evaluated
+                match self.tape.weighted(&[4, 1, 1, 1, 1]) {
+                    1 => {
+                        self.label("discarded array literal");
+                        let t = self.gen_scalar_ty();
+                        let n = 1 + self.tape.below(3);
+                        Stmt::Expr(Expr::Array((0..n).map(|_| self.expr(&t, depth.saturating_sub(1))).collect()))
+                    }
+                    2 => {
+                        self.label("discarded tuple literal");
+                        let n = 2 + self.tape.below(2);
+                        Stmt::Expr(Expr::Tuple((0..n).map(|_| { let t = self.gen_scalar_ty(); self.expr(&t, depth.saturating_sub(1)) }).collect()))
+                    }
+                    3 => {
+                        self.label("discarded struct literal");
+                        let t = self.gen_scalar_ty();
+                        Stmt::Expr(Expr::Struct(vec![("a".into(), self.expr(&t, depth.saturating_sub(1))), ("n".into(), self.expr(&Ty::Int, depth.saturating_sub(1)))]))
+                    }
+                    4 => {
+                        // an index whose value is discarded: its operands are still evaluated
+                        self.label("discarded index");
+                        let n = 1 + self.tape.below(3);
+                        let source = Expr::Array((0..n).map(|_| self.expr(&Ty::Int, depth.saturating_sub(1))).collect());
+                        let i = self.tape.range(-(n as i64), n as i64 - 1);
+                        let index = self.maybe_tick(Expr::Int(i), &Ty::Int);
+                        Stmt::Expr(Expr::Index(Box::new(source), Box::new(index)))
+                    }
+                    _ => {
+                        let t = self.gen_scalar_ty();
+                        let e = self.expr(&t, depth);
+                        Stmt::Expr(e)
+                    }
+                }
             }
             7 => {
                 let r = self.fn_ret.clone().unwrap();
